@@ -415,6 +415,7 @@ func (s *Scorch) openBolt() error {
 		}
 	}
 
+	s.verifPoint("open.loaded")
 	atomic.StoreUint64(&s.stats.TotFileSegmentsAtRoot, uint64(len(s.root.segment)))
 
 	s.introductions = make(chan *segmentIntroduction)
@@ -426,11 +427,13 @@ func (s *Scorch) openBolt() error {
 	s.forceMergeRequestCh = make(chan *mergerCtrl, 1)
 
 	if !s.readOnly && s.path != "" {
+		s.verifPoint("open.beforeCleanup")
 		err := s.removeOldZapFiles() // Before persister or merger create any new files.
 		if err != nil {
 			_ = s.Close()
 			return err
 		}
+		s.verifPoint("open.afterCleanup")
 	}
 
 	return nil
@@ -443,11 +446,13 @@ func (s *Scorch) Close() (err error) {
 	}()
 
 	s.fireEvent(EventKindCloseStart, 0)
+	s.verifPoint("close.begin")
 
 	// signal to async tasks we want to close
 	close(s.closeCh)
 	// wait for them to close
 	s.asyncTasks.Wait()
+	s.verifPoint("close.loopsStopped")
 	// now close the root bolt
 	if s.rootBolt != nil {
 		err = s.rootBolt.Close()
@@ -462,6 +467,7 @@ func (s *Scorch) Close() (err error) {
 		s.rootBolt = nil
 		s.rootLock.Unlock()
 	}
+	s.verifPoint("close.end")
 
 	return
 }
@@ -590,6 +596,7 @@ func (s *Scorch) Batch(batch *index.Batch) (err error) {
 		atomic.AddUint64(&s.stats.TotBatchesEmpty, 1)
 	}
 
+	s.verifPoint("batch.segmentBuilt")
 	err = s.prepareSegment(newSegment, ids, batch.InternalOps, batch.PersistedCallback())
 	if err != nil {
 		if newSegment != nil {
@@ -668,6 +675,7 @@ func (s *Scorch) prepareSegment(newSegment segment.Segment, ids []string,
 
 	introStartTime := time.Now()
 
+	s.verifPoint("batch.beforeIntro")
 	s.introductions <- introduction
 
 	// block until this segment is applied
@@ -676,10 +684,12 @@ func (s *Scorch) prepareSegment(newSegment segment.Segment, ids []string,
 		return err
 	}
 
+	s.verifPoint("batch.applied")
 	if introduction.persisted != nil {
 		err = <-introduction.persisted
 	}
 
+	s.verifPoint("batch.persisted")
 	introTime := uint64(time.Since(introStartTime))
 	atomic.AddUint64(&s.stats.TotBatchIntroTime, introTime)
 	if atomic.LoadUint64(&s.stats.MaxBatchIntroTime) < introTime {
@@ -1100,6 +1110,7 @@ func (s *Scorch) CopyReader() index.CopyReader {
 		}
 	}
 	s.rootLock.Unlock()
+	s.verifPoint("copy.readerTaken")
 	return rv
 }
 
